@@ -5,11 +5,15 @@ cd /repo || exit 9
 git diff --quiet || { echo "/repo not clean"; exit 9; }
 git apply "$P" || { echo "patch does not apply"; exit 9; }
 cd /verif
+# evidence files under git must come from the unchanged tree: keep the current one aside
+cp -f "evidence/$ID.json" "/tmp/evidence_keep_$ID.json" 2>/dev/null
 START=$(date +%s)
 ./check "$ID" --tier "$TIER" > /tmp/try_mutant.out 2>&1
 RC=$?
 END=$(date +%s)
 git -C /repo checkout -- .
+cp -f "/tmp/evidence_keep_$ID.json" "evidence/$ID.json" 2>/dev/null
+rm -f replays/${ID}_*.json
 grep -E "^(VIOLATION|KNOWN-FINDING|INCONCLUSIVE|OK)" /tmp/try_mutant.out | cut -c1-400 | head -8
 grep -E "^  " /tmp/try_mutant.out | cut -c1-300 | head -4
 echo "exit=$RC wall=$((END-START))s"
